@@ -65,6 +65,7 @@ fn m_record(variant: u8, x: &Enr) -> Option<Enr> {
 // 0x03: Way        active-request idx << 8 | src (0 the request's destination, 1 addr_M)
 // 0x04: Replay     log idx << 8 | src (0 original, 1 addr_M)
 // 0x05: Answer     shape   (M answers V's oldest request to M)
+// 0x06: Late       more than a challenge lifetime passes
 fn code(kind: u32, arg: u32) -> u32 {
     (kind << 24) | arg
 }
@@ -151,6 +152,10 @@ impl Driver for Attack {
                 out.push((Ev::Ext(code(4, (d.seq as u32) << 8)), 1));
                 out.push((Ev::Ext(code(4, (d.seq as u32) << 8 | 1)), 1));
             }
+        }
+        // let more than a challenge lifetime pass while a challenge is outstanding
+        if !challenges_of(w).is_empty() && !w.scratch.iter().any(|(k, _)| k == "late") {
+            out.push((Ev::Ext(code(6, 0)), 1));
         }
         // M as responder: V has a request outstanding to M and a session with it
         if let Some(s) = w.snap(V) {
@@ -242,6 +247,10 @@ impl Driver for Attack {
                     let src = if arg & 0xf == 0 { d.src } else { m_addr() };
                     w.log_mark = w.log.len();
                     w.deliver_raw(V, src, &d.bytes, d.kind, d.nonce, d.origin).await;
+                }
+                6 => {
+                    w.scratch.push(("late".into(), vec![]));
+                    w.advance_through(crate::hsim::REQUEST_TIMEOUT + std::time::Duration::from_millis(100)).await;
                 }
                 5 => {
                     // M answers V's oldest request, using the session keys it shares with V
